@@ -76,6 +76,8 @@ type Case struct {
 	Stubs   StubPlan          `json:"stubs"`
 	// NativeInts: build integral JSON numbers of these docs as Go int instead of float64
 	NativeInts bool `json:"native_ints,omitempty"`
+	// NativeIntKeys: like NativeInts, but only below these top-level keys of each doc (mixing int and float64 tables)
+	NativeIntKeys []string `json:"native_int_keys,omitempty"`
 }
 
 // ---------------------------------------------------------------- observation
